@@ -15,7 +15,9 @@ import itertools
 class Kind:
   """kind name, number of slots, whether slots may be unset, builder."""
 
-  def __init__(self, name, nslots, allow_unset, make, is_buildable=False):
+  def __init__(self, name, nslots, allow_unset, make, is_buildable=False,
+               leaf_only=False):
+    self.leaf_only = leaf_only
     self.name = name
     self.nslots = nslots
     self.allow_unset = allow_unset
@@ -88,7 +90,8 @@ def enumerate_shapes(kinds, n_nodes, nleaves=1, root_kinds=None,
     for kind in kinds:
       if i == n_nodes - 1 and root_kinds and kind.name not in root_kinds:
         continue
-      choices = _slot_choices(i, nleaves, kind.allow_unset)
+      choices = _slot_choices(0 if kind.leaf_only else i, nleaves,
+                              kind.allow_unset)
       for slots in itertools.product(choices, repeat=kind.nslots):
         # early prune: every earlier node must still be referencable; cheap
         # check only at the end (reachability)
@@ -178,5 +181,7 @@ def std_kinds(names, cfg_fn=None, cfg_fn2=None, partial_fn=None):
       'ddict1': Kind('ddict1', 1, False, lambda v: collections.defaultdict(
           list, {'a': v[0]})),
       'tmp': Kind('tmp', 2, False, lambda v: N.Tmp(*v)),
+      'tmpprim': Kind('tmpprim', 1, False, lambda v: N.TmpPrim(v[0]),
+                      leaf_only=True),
   }
   return [table[n] for n in names]
